@@ -5,6 +5,7 @@ import (
 	"fmt"
 	"os"
 	"path/filepath"
+	"regexp"
 	"strings"
 	"testing"
 	"time"
@@ -35,6 +36,66 @@ type SchedCase struct {
 	// StaleTmp: a temp file of a killed whole-file rewrite lies next to the log (1 = a byte
 	// prefix of the log, 2 = twice the log, 3 = longer than the log and ending mid-line)
 	StaleTmp int `json:"stale_tmp,omitempty"`
+	// FutureLog: every time stamp of the log is two hours ahead (the store was built on a
+	// host with a fast clock and came over by git); CraftedTasks: that many extra ready
+	// tasks whose creation times lie in one second of the past and differ only in the
+	// fraction (written with and without trailing digits)
+	FutureLog    bool `json:"future_log,omitempty"`
+	CraftedTasks int  `json:"crafted_tasks,omitempty"`
+}
+
+var stampRe = regexp.MustCompile(`"(\d{4}-\d{2}-\d{2}T\d{2}:\d{2}:\d{2}(?:\.\d+)?Z)"`)
+
+// applyClockPre rewrites time stamps of the store (see SchedCase.FutureLog / CraftedTasks)
+// and returns the snapshot to start from.
+func (w *World) applyClockPre(pre *Snapshot, future bool, crafted int) *Snapshot {
+	if !future && crafted == 0 {
+		return pre
+	}
+	fractions := []string{"", ".25", ".5", ".500001", ".5000011"}
+	var ids []string
+	for i := 0; i < crafted && i < len(fractions); i++ {
+		r := Run(Cmd{Args: []string{"--json", "new", "task", "--title", fmt.Sprintf("made within one second %d", i)}, Dir: w.Root})
+		var m map[string]any
+		if r.OK() && StrictJSON(r.Stdout, &m) == nil {
+			ids = append(ids, asString(m["id"]))
+		}
+	}
+	path := LogPath(w.Root)
+	b, err := os.ReadFile(path)
+	if err != nil {
+		return pre
+	}
+	lines, rest := LogLines(b)
+	for i, id := range ids {
+		for k, l := range lines {
+			var ev LogEvent
+			if json.Unmarshal([]byte(l), &ev) == nil && ev.Type == "new_task" && ev.Str("id") == id {
+				lines[k] = strings.ReplaceAll(l, `"`+ev.TS+`"`, `"2026-01-01T09:00:00`+fractions[i]+`Z"`)
+			}
+		}
+	}
+	text := strings.Join(lines, "\n") + "\n" + rest
+	if future {
+		text = stampRe.ReplaceAllStringFunc(text, func(q string) string {
+			if ts, ok := timeParse(q[1 : len(q)-1]); ok {
+				return `"` + ts.Add(2*time.Hour).UTC().Format(time.RFC3339Nano) + `"`
+			}
+			return q
+		})
+	}
+	_ = os.WriteFile(path, []byte(text), 0o644)
+	w.Skewed = true
+	post, err := TakeSnapshot(w.Root)
+	if err != nil {
+		return pre
+	}
+	for id := range post.Items {
+		if !w.Seen[id] {
+			w.AddID(id, 950)
+		}
+	}
+	return post
 }
 
 // genActions draws a controller schedule: every command is started once; a parked
@@ -105,6 +166,12 @@ func genClaimRace(t *rapid.T, w *World, pre *Snapshot, n int) []Op {
 			ops = append(ops, op)
 			continue
 		}
+		if pct(t, 14, "race.rewrite") {
+			// the whole-file rewrites and the bulk delete race with claims too
+			op.Kind = oneOf(t, []string{"compact", "compact", "prune_yes"}, "race.rewrite.kind")
+			ops = append(ops, op)
+			continue
+		}
 		id := oneOf(t, tasks, "race.target")
 		// prefer a finished / blocked task that is older than some ready task: reopening it
 		// changes the head of the queue
@@ -163,6 +230,14 @@ type schedSpec struct {
 	maxN       int
 	setup      Profile
 	extra      func(pre, final *Snapshot, cmds []ConcCmd) []string
+	// clockPct: percent of cases whose store has unusual time stamps (whole log two hours
+	// ahead, or ready tasks created within one second)
+	clockPct int
+	// holderInit forces the lock-holder template with an `init` bystander in most cases
+	holderInit bool
+	// mutex makes "the log changed while another process was stopped inside its lock
+	// section" a violation of this check's property (always on for C01 / C02)
+	mutex bool
 }
 
 func overlapping(cmds []ConcCmd) bool {
@@ -246,6 +321,7 @@ func runSchedTest(t *testing.T, sp schedSpec) {
 					pre = pre2
 				}
 			}
+			pre = w.applyClockPre(pre, sc.FutureLog, sc.CraftedTasks)
 			if sc.LockMissing {
 				os.Remove(filepath.Join(w.Root, ".ergo", "lock"))
 			}
@@ -270,7 +346,7 @@ func runSchedTest(t *testing.T, sp schedSpec) {
 					viol = append(viol, Violation{sp.prop, g})
 				}
 			}
-			if sp.prop == "C02" || sp.prop == "C01" {
+			if sp.prop == "C02" || sp.prop == "C01" || sp.mutex {
 				for _, g := range mutex {
 					viol = append(viol, Violation{sp.prop, g})
 				}
@@ -328,6 +404,17 @@ func runSchedTest(t *testing.T, sp schedSpec) {
 				}
 				stats.Label("log_of_several_megabytes")
 			}
+		}
+		futureLog, craftedTasks := false, 0
+		if sp.clockPct > 0 && pct(rt, sp.clockPct, "clock.pre") {
+			if pct(rt, 50, "clock.future") {
+				futureLog = true
+				stats.Label("whole_log_dated_two_hours_ahead")
+			} else {
+				craftedTasks = between(rt, 2, 5, "clock.crafted")
+				stats.Label("ready_tasks_created_within_one_second")
+			}
+			pre = w.applyClockPre(pre, futureLog, craftedTasks)
 		}
 		lockMissing := pct(rt, 20, "lock.missing")
 		if lockMissing {
@@ -418,7 +505,11 @@ func runSchedTest(t *testing.T, sp schedSpec) {
 			if lockMissing {
 				tplN = 40 // both commands then run the "recreate the lock file" path: more weight on the templates below
 			}
-			switch tpl := uni(rt, tplN, "template.more"); {
+			tpl := uni(rt, tplN, "template.more")
+			if sp.holderInit && pct(rt, 80, "holder.forced") {
+				tpl = 0
+			}
+			switch {
 			case tpl < 12 && n >= 2:
 				// lock-holder template: one command is stopped right inside its lock section, all
 				// others run (they must bounce off with lock busy, whatever else happens - an
@@ -432,7 +523,7 @@ func runSchedTest(t *testing.T, sp schedSpec) {
 					p := pts[hi]
 					cmds[a].Park = &p
 					actions = []SchedAction{{"start", a}}
-					if pct(rt, 50, "holder.init") {
+					if pct(rt, 50, "holder.init") || sp.holderInit {
 						// a bystander re-runs init while the lock is held (it must not disturb it)
 						cmds = append(cmds, ConcCmd{Op: Op{N: 1000 + len(cmds), Kind: "init"}})
 						actions = append(actions, SchedAction{"start", len(cmds) - 1})
@@ -494,13 +585,13 @@ func runSchedTest(t *testing.T, sp schedSpec) {
 				viol = append(viol, Violation{sp.prop, g})
 			}
 		}
-		if sp.prop == "C02" || sp.prop == "C01" {
+		if sp.prop == "C02" || sp.prop == "C01" || sp.mutex {
 			for _, g := range mutex {
 				viol = append(viol, Violation{sp.prop, g})
 			}
 		}
 		if len(viol) > 0 {
-			WriteReplay(replayPath, SchedCase{Property: sp.prop, Engine: "SCHED", Test: sp.test, Setup: setup, Cmds: cmds, Actions: actions, Violations: viol, LockMissing: lockMissing, BigLogMB: bigMB, TornTail: pc.TornTail, OldLock: pc.OldLock, Legacy: pc.Legacy, StaleTmp: pc.StaleTmp})
+			WriteReplay(replayPath, SchedCase{Property: sp.prop, Engine: "SCHED", Test: sp.test, Setup: setup, Cmds: cmds, Actions: actions, Violations: viol, LockMissing: lockMissing, BigLogMB: bigMB, TornTail: pc.TornTail, OldLock: pc.OldLock, Legacy: pc.Legacy, StaleTmp: pc.StaleTmp, FutureLog: futureLog, CraftedTasks: craftedTasks})
 			rt.Fatalf("%s violated: %v", sp.prop, viol)
 		}
 		stats.Eval()
@@ -548,8 +639,8 @@ var claimSetup = Profile{Name: "claim-setup", Weights: map[string]int{"new_task"
 func TestC01(t *testing.T) {
 	runSchedTest(t, schedSpec{
 		prop: "C01", test: "TestC01",
-		rule:   "a generated store (short random history) and 2-4 concurrent commands - mostly `claim` (with / without --epic) plus disturbers that reopen, finish, move or create tasks (`set`, `new task`, `prune --yes`) -, each optionally parked by the controller right after a drawn system call on the store's files (strace SIGSTOP injection) and resumed at a drawn later moment, or all free-running; oracle: some serial order consistent with real time in which every successful claim returns the model's oldest ready task at that position and the final state matches, lock-busy claims contribute nothing, no id is handed out twice; non-trivial = executions overlap and at least one park landed (or free-running); distinct = (commands, park points, controller schedule)",
-		genOps: genClaimRace, minN: 2, maxN: 4, setup: claimSetup, bigLogPct: 14,
+		rule:   "a generated store (short random history) and 2-4 concurrent commands - mostly `claim` (with / without --epic) plus disturbers that reopen, finish, move or create tasks or rewrite the log (`set`, `new task`, `prune --yes`, `compact`) -, on a store whose time stamps are in a quarter of the cases unusual (the whole log two hours ahead of the clock, or 2-5 ready tasks created within one second, stamps written with and without trailing digits), each optionally parked by the controller right after a drawn system call on the store's files (strace SIGSTOP injection) and resumed at a drawn later moment, or all free-running; oracle: some serial order consistent with real time in which every successful claim returns the model's oldest ready task at that position and the final state matches, lock-busy claims contribute nothing, no id is handed out twice; non-trivial = executions overlap and at least one park landed (or free-running); distinct = (commands, park points, controller schedule)",
+		genOps: genClaimRace, minN: 2, maxN: 4, setup: claimSetup, bigLogPct: 14, clockPct: 24,
 		extra: func(pre, final *Snapshot, cmds []ConcCmd) []string {
 			var out []string
 			seen := map[string]int{}
